@@ -633,14 +633,7 @@ func (t *runner) test(prog []op, old bool, class string) {
 		return ""
 	}()
 	if perr != "" {
-		sig := "writer-panic"
-		var pa, pb int
-		if n, _ := fmt.Sscanf(perr, "invalid subtree node range %d, %d", &pa, &pb); n == 2 && pb-pa == 1 && pa >= maxDegree {
-			// mergeNodes asked to merge a single trailing node that follows a full run of
-			// maxDegree nodes of one depth (left behind by merge() of a shallower range)
-			sig = "panic:mergeNodes-single-node-after-full-run"
-		}
-		e.Fail(sig, "the page tree writer panics: "+perr, cs)
+		e.Fail("writer-panic", "the page tree writer panics: "+perr, cs)
 		e.Line("impl.obs", "%s panic", id)
 		return
 	}
@@ -1042,14 +1035,35 @@ func main() {
 		t.test(g.prog, old, "corpus")
 	}
 
-	// known finding: 15 subtrees of depth 2, 8 of depth 1, then a range of 9 pages: Close panics
-	{
+	// F47: 15 subtrees of depth 2, 8 of depth 1, then a range of 9 pages - Close used to panic;
+	// and a sample of the family around it (all of it in the thorough tier): d2 subtrees of depth 2,
+	// ra of depth 1, `extra` pages, a range of nb pages, `after` pages behind the range
+	family := func(d2, ra, extra, nb, after int, class string) {
 		g := newGen(e)
 		g.palette = 0
-		g.appendPages(0, 15*256+8*16, false)
+		g.appendPages(0, d2*256+ra*16+extra, false)
 		g.newRange(0)
-		g.appendPages(1, 9, false)
-		t.test(g.prog, false, "corpus-merge-panic")
+		g.appendPages(1, nb, false)
+		g.appendPages(0, after, false)
+		t.test(g.prog, false, class)
+	}
+	family(15, 8, 0, 9, 0, "corpus-F47")
+	if e.Thorough {
+		// the part of the 15360-program family where the two runs hold 16 or 17 nodes
+		for ra := 1; ra <= 15; ra++ {
+			for _, extra := range []int{0, 5} {
+				for _, nb := range []int{16 - ra, 17 - ra} {
+					if nb > 0 {
+						family(15, ra, extra, nb, []int{0, 1, 16}[(ra+nb+extra)%3], "family-F47")
+					}
+				}
+			}
+		}
+	} else {
+		for i := 0; i < 3; i++ {
+			ra := 1 + e.Rand.IntN(15)
+			family(15, ra, 0, 17-ra, []int{0, 1, 16}[i%3], "family-F47")
+		}
 	}
 
 	// deeply nested ranges: the page tree gets taller than 64 levels
